@@ -149,6 +149,8 @@ class Scenario:
             self._record(lab, "syntactic", "unsat", impl=ac, ref=bc)
             return True
         r, mdl = CTX.check(eq_formula(a, b), self.qtimeout)
+        if r == "sat" and not differs and self._log_linear_eq(a, b):
+            r = "unsat"  # discharged after normalising sums of logarithms into one product identity
         self._record(lab, "z3", r, impl=ac, ref=bc)
         if r == "unsat":
             if self.twins == 0 and not a.is_const():
@@ -166,6 +168,53 @@ class Scenario:
         else:
             self.candidates.append((lab, self._model_overrides(mdl)))
         return False
+
+    def _log_linear_eq(self, a, b):
+        """a - b = sum_k c_k log(w_k) + rest with constant c_k: valid iff rest = 0 and prod_k w_k^(c_k) = 1.
+        (log-determinants reached through different factorizations: compared as determinants, DESIGN C15)"""
+        from .core import subst as _s
+        logs = CTX.fun.get("log", [])
+        if not logs:
+            return False
+        D = a - b
+        pairs0 = [(r.n, z3.RealVal(0)) for _, r in logs]
+        def sub(t, pairs):
+            return Sym(z3.substitute(t.n, *pairs), z3.substitute(t.d, *pairs), 0.0)
+        rest = sub(D, pairs0)
+        if CTX.check(eq_formula(rest, Sym.const(0.0)), self.qtimeout)[0] != "unsat":
+            return False
+        num, den = Sym.const(1.0), Sym.const(1.0)
+        lin = Sym.const(0.0)
+        for k, (w, r) in enumerate(logs):
+            pairs = [(rr.n, z3.RealVal(1 if j == k else 0)) for j, (_, rr) in enumerate(logs)]
+            ck = sub(D, pairs) - rest
+            from .core import Eval
+            from fractions import Fraction
+            ev = Eval()
+            try:
+                cc = ev.cev(ck.n) / ev.cev(ck.d)
+            except Exception:
+                return False
+            f = Fraction(cc).limit_denominator(4)
+            if abs(float(f) - cc) > 1e-9:
+                return False
+            # the coefficient of this log atom is the constant f (solver-validated)
+            if CTX.check(eq_formula(ck, Sym.const(f)), self.qtimeout)[0] != "unsat":
+                return False
+            if f == 0:
+                continue
+            if f.denominator not in (1, 2):
+                return False
+            e = int(f * 2)  # exponents doubled so that halves are allowed
+            lin = lin + r * Sym.const(f)
+            if e > 0:
+                num = num * (w ** e)
+            else:
+                den = den * (w ** (-e))
+        # linearity: D == rest + sum c_k log_k
+        if CTX.check(eq_formula(D, rest + lin), self.qtimeout)[0] != "unsat":
+            return False
+        return CTX.check(eq_formula(num, den), self.qtimeout)[0] == "unsat"
 
     def prove(self, symb, label):
         """obligation: boolean formula (SymB / z3 Bool) holds for all inputs on this path"""
